@@ -168,14 +168,14 @@ def judge(pre, op, out, ctx):
         if one(hf.DataFrame, sid):
             check(('END_STREAM' in fr[0].flags) == bool(end) and 'PADDED' not in fr[0].flags,
                   'data-flags', sig)
-            check(len(fr[0].data) == _reg('dlen') if CTX.mode == 'sym' else True,
+            check(len(fr[0].data) == _reg('dlen'),
                   'data-length', None)
     elif t == 'end_stream':
         if one(hf.DataFrame, op[1]):
             check('END_STREAM' in fr[0].flags and len(fr[0].data) == 0, 'end-stream-frame', sig)
     elif t == 'reset':
         if one(hf.RstStreamFrame, op[1]):
-            check(fr[0].error_code == _reg('code') if CTX.mode == 'sym' else True,
+            check(fr[0].error_code == _reg('code'),
                   'rst-error-code', None)
     elif t == 'push':
         if one(hf.PushPromiseFrame, op[1]):
@@ -183,13 +183,13 @@ def judge(pre, op, out, ctx):
                   'push-frame', sig)
     elif t == 'wu':
         if one(hf.WindowUpdateFrame, op[1]):
-            check(fr[0].window_increment == _reg('inc') if CTX.mode == 'sym' else True,
+            check(fr[0].window_increment == _reg('inc'),
                   'window-increment', None)
     elif t == 'altsvc':
         one(hf.AltSvcFrame, 0 if op[2] else op[1])
     elif t == 'prioritize':
         if one(hf.PriorityFrame, op[1]):
-            check(fr[0].stream_weight == _reg('w') - 1 if CTX.mode == 'sym' else True,
+            check(fr[0].stream_weight == _reg('w') - 1,
                   'priority-weight', None)
     elif t == 'ping':
         if one(hf.PingFrame, 0):
@@ -200,7 +200,7 @@ def judge(pre, op, out, ctx):
             check('ACK' not in fr[0].flags and not fr[0].settings, 'settings-frame', sig)
     elif t == 'close':
         if one(hf.GoAwayFrame, 0):
-            check(fr[0].error_code == _reg('gcode') if CTX.mode == 'sym' else True,
+            check(fr[0].error_code == _reg('gcode'),
                   'goaway-code', None)
             want = pre.highest_in if pre.last_goaway is None else pre.last_goaway
             check(fr[0].last_stream_id == want, 'goaway-last-stream-id',
